@@ -101,10 +101,20 @@ def run_verus(unit, repo, outdir, vacuity=False, rlimit=None):
     (a change to the code started using something the verifier or the unit's model does not support), those functions
     are isolated - contract kept as a stub, body dropped, reported NO-VERDICT - and the rest of the unit is verified."""
     stub_out = set()
-    for _round in range(4):
-        res = run_verus_once(unit, repo, outdir, vacuity, rlimit, stub_out)
+    consts = set()
+    for _round in range(5):
+        res = run_verus_once(unit, repo, outdir, vacuity, rlimit, stub_out, sorted(consts))
         if not res['compile_error']:
             break
+        # a named constant the change introduced: import its definition mechanically and retry
+        newc = set()
+        for e in res['errors']:
+            m = re.search(r'cannot find value `([A-Z][A-Z0-9_]*)` in this scope', e['msg'])
+            if m and m.group(1) not in consts:
+                newc.add(m.group(1))
+        if newc:
+            consts |= newc
+            continue
         culprits = set()
         outside = False
         for e in res['errors']:
@@ -123,8 +133,8 @@ def run_verus(unit, repo, outdir, vacuity=False, rlimit=None):
     return res
 
 
-def run_verus_once(unit, repo, outdir, vacuity=False, rlimit=None, stub_out=None):
-    info = extract.build(unit, repo, os.path.join(VERIF, 'units'), outdir, vacuity=vacuity, stub_out=stub_out)
+def run_verus_once(unit, repo, outdir, vacuity=False, rlimit=None, stub_out=None, consts=None):
+    info = extract.build(unit, repo, os.path.join(VERIF, 'units'), outdir, vacuity=vacuity, stub_out=stub_out, extra_consts=consts)
     gen = info['generated']
     cmd = ['verus', gen, '--output-json', '--time-expanded', '--multiple-errors', '20']
     if rlimit:
